@@ -19,8 +19,11 @@ import (
 
 	configv1 "github.com/istio-ecosystem/authservice/config/gen/go/v1"
 	"github.com/istio-ecosystem/authservice/internal"
+	"github.com/istio-ecosystem/authservice/internal/k8s"
 	"github.com/istio-ecosystem/authservice/internal/oidc"
 	"github.com/istio-ecosystem/authservice/internal/server"
+	"sigs.k8s.io/controller-runtime/pkg/client"
+	"sigs.k8s.io/controller-runtime/pkg/client/fake"
 )
 
 const (
@@ -87,6 +90,9 @@ type env struct {
 	cancel  context.CancelFunc
 	spec    CfgSpec
 	fspec   map[string]*FilterSpec
+	kube    client.Client
+	secrets *k8s.SecretController
+	curSec  map[string]string // Kubernetes Secret name -> current value
 }
 
 type driver struct {
@@ -107,7 +113,9 @@ type driver struct {
 	brs     map[string]*browser
 	forged  int
 	scID    string
+	scN     int
 
+	oldSecrets []string
 	parallel  bool                 // a "parallel" step is running: no gates, attribution by context / code / refresh token
 	big       sync.Mutex           // serialises the harness' own bookkeeping in parallel mode
 	codeOwner map[string]*checkRun // authorization code -> the callback check that carried it
@@ -209,6 +217,20 @@ func (d *driver) symURL(v string) string {
 	return "rawurl:" + v
 }
 
+func (d *driver) symClientIDFor(v, fname string) string {
+	if f := d.env.fspec[fname]; f != nil && v != "" && f.ClientID == v {
+		return "cid:" + f.Name
+	}
+	return d.symClientID(v)
+}
+
+func (d *driver) symClientSecretFor(v, fname string) string {
+	if f := d.env.fspec[fname]; f != nil && v != "" && d.curSecretOf(f) == v {
+		return "sec:" + f.Name
+	}
+	return d.symClientSecret(v)
+}
+
 func (d *driver) symClientID(v string) string {
 	if v == "" {
 		return "none"
@@ -221,22 +243,38 @@ func (d *driver) symClientID(v string) string {
 	return "cid:unknown"
 }
 
+// curSecretOf is the client secret the provider expects from a filter right now (static, or the referenced Secret's value)
+func (d *driver) curSecretOf(f *FilterSpec) string {
+	if f.SecretRef != "" {
+		return d.env.curSec[f.SecretRef]
+	}
+	return f.ClientSecret
+}
+
 func (d *driver) symClientSecret(v string) string {
 	if v == "" {
 		return "none"
 	}
-	for _, f := range d.env.spec.Filters {
-		if f.ClientSecret == v {
+	for i := range d.env.spec.Filters {
+		f := &d.env.spec.Filters[i]
+		if d.curSecretOf(f) == v {
 			return "sec:" + f.Name
+		}
+	}
+	for _, old := range d.oldSecrets {
+		if old == v {
+			return "sec:stale"
 		}
 	}
 	return "sec:unknown"
 }
 
+// secretOfClient: the secret the provider accepts for this client id at this endpoint
 func (d *driver) secretOfClient(id string) string {
-	for _, f := range d.env.spec.Filters {
+	for i := range d.env.spec.Filters {
+		f := &d.env.spec.Filters[i]
 		if f.ClientID == id {
-			return f.ClientSecret
+			return d.curSecretOf(f)
 		}
 	}
 	return "\x00no-such-client"
@@ -252,7 +290,12 @@ func (d *driver) symRedirect(v string) string {
 }
 
 func callbackURI(f *FilterSpec) string { return "https://" + appHost + "/" + f.Name + "/callback" }
-func logoutPath(f *FilterSpec) string  { return "/" + f.Name + "/logout" }
+func logoutPath(f *FilterSpec) string {
+	if f.InheritLogout && f.inheritedLogoutPath != "" {
+		return f.inheritedLogoutPath
+	}
+	return "/" + f.Name + "/logout"
+}
 func cookieName(f *FilterSpec) string {
 	if f.Prefix != "" {
 		return "__Host-" + f.Prefix + "-" + cookieSfx
@@ -281,6 +324,20 @@ func (d *driver) authzEndpoint(f *FilterSpec) string {
 	return u
 }
 
+// discoveryURL: all providers share one path; the provider (and the document variant) is selected by the query
+func (d *driver) discoveryURL(f *FilterSpec) string {
+	id := f.IdpID
+	if id == "" {
+		id = "A"
+	}
+	// (the service caches discovery documents per URL for the life of the process: every scenario gets URLs of its own)
+	u := d.idp.srv.URL + "/X/.well-known/openid-configuration?sc=" + itoa(d.scN) + "&idp=" + id
+	if f.DiscoveryDoc != "" {
+		u += "&doc=" + f.DiscoveryDoc
+	}
+	return u
+}
+
 func (d *driver) logoutRedirect(f *FilterSpec) string {
 	if f.LogoutRedirect != "" {
 		return f.LogoutRedirect
@@ -293,6 +350,7 @@ func (d *driver) setup(spec CfgSpec) error {
 	e := &env{spec: spec, mr: map[string]*miniredis.Miniredis{}, fspec: map[string]*FilterSpec{}}
 	var chains []any
 	var defaultOIDC map[string]any
+	defaultLogoutPath := ""
 	for i := range spec.Filters {
 		f := &spec.Filters[i]
 		if f.ClientID == "" {
@@ -315,13 +373,17 @@ func (d *driver) setup(spec CfgSpec) error {
 		}
 		e.fspec[f.Name] = f
 		o := map[string]any{
-			"callback_uri":  callbackURI(f),
-			"client_id":     f.ClientID,
-			"client_secret": f.ClientSecret,
-			"id_token":      map[string]any{"header": f.IDHeader, "preamble": f.IDPreamble},
+			"callback_uri": callbackURI(f),
+			"client_id":    f.ClientID,
+			"id_token":     map[string]any{"header": f.IDHeader, "preamble": f.IDPreamble},
+		}
+		if f.SecretRef != "" {
+			o["client_secret_ref"] = map[string]any{"name": f.SecretRef}
+		} else {
+			o["client_secret"] = f.ClientSecret
 		}
 		if f.Discovery {
-			o["configuration_uri"] = d.idp.base(f.IdpID) + "/.well-known/openid-configuration"
+			o["configuration_uri"] = d.discoveryURL(f)
 		} else {
 			o["authorization_uri"] = d.authzEndpoint(f)
 			o["token_uri"] = d.idp.base(f.IdpID) + "/token"
@@ -329,7 +391,7 @@ func (d *driver) setup(spec CfgSpec) error {
 		if f.Jwks == "fetch" {
 			o["jwks_fetcher"] = map[string]any{"jwks_uri": d.idp.base(f.IdpID) + "/jwks", "periodic_fetch_interval_sec": 1}
 		} else if !f.Discovery {
-			o["jwks"] = jwksJSON("")
+			o["jwks"] = jwksJSON(f.KeySet)
 		}
 		if f.Scopes != nil {
 			o["scopes"] = f.Scopes
@@ -342,7 +404,9 @@ func (d *driver) setup(spec CfgSpec) error {
 		}
 		if f.Logout {
 			lo := map[string]any{"path": logoutPath(f)}
-			if f.LogoutRedirect != "" {
+			if f.NoLogoutRedirect && f.Discovery {
+				f.LogoutRedirect = ""
+			} else if f.LogoutRedirect != "" {
 				lo["redirect_uri"] = f.LogoutRedirect
 			} else if !f.Discovery {
 				f.LogoutRedirect = "https://idp.example/end-session?f=" + f.Name
@@ -381,12 +445,25 @@ func (d *driver) setup(spec CfgSpec) error {
 				for k, v := range o {
 					defaultOIDC[k] = v
 				}
+				defaultLogoutPath = logoutPath(f)
+			}
+			if f.InheritLogout {
+				delete(o, "logout")
+				f.inheritedLogoutPath = defaultLogoutPath
 			}
 		}
+		cname := f.Name
+		if f.ChainName != "" {
+			cname = f.ChainName
+		}
+		filters := []any{map[string]any{ftype: o}}
+		if f.After == "deny" || f.After == "allow" {
+			filters = append(filters, map[string]any{"mock": map[string]any{"allow": f.After == "allow"}})
+		}
 		chains = append(chains, map[string]any{
-			"name":    f.Name,
+			"name":    cname,
 			"match":   map[string]any{"header": chainHdr, "equality": f.Name},
-			"filters": []any{map[string]any{ftype: o}},
+			"filters": filters,
 		})
 		d.rec.addSecret(f.ClientSecret, "clientSecret")
 	}
@@ -424,6 +501,17 @@ func (d *driver) setup(spec CfgSpec) error {
 		return err
 	}
 	e.factory = &spyFactory{d: d, real: fac, spies: map[oidc.SessionStore]*spyStore{}}
+	for _, f := range spec.Filters {
+		if f.SecretRef != "" {
+			e.kube = fake.NewClientBuilder().Build()
+			var err error
+			if e.secrets, err = k8s.VerifNewController(e.cfg, "own", e.kube); err != nil {
+				cancel()
+				return err
+			}
+			break
+		}
+	}
 	e.filter = server.NewExtAuthZFilter(e.cfg, tlsPool, &spyJWKS{d: d, real: jw}, e.factory)
 	d.env = e
 	return nil
@@ -451,7 +539,7 @@ func (d *driver) cfgEvent(sc *Scenario) map[string]any {
 		fl = append(fl, map[string]any{"name": f.Name, "store": f.Store, "prefix": f.Prefix, "accessFwd": f.AccessFwd,
 			"idHeader": f.IDHeader, "idPreamble": f.IDPreamble, "atHeader": f.ATHeader, "atPreamble": f.ATPreamble,
 			"logout": f.Logout, "abs": f.Abs, "idle": f.Idle, "scopes": scopes, "ownQuery": ownQ,
-			"discovery": f.Discovery, "idp": idp, "cookieName": cookieName(&f)})
+			"discovery": f.Discovery, "idp": idp, "cookieName": cookieName(&f), "afterDeny": f.After == "deny", "secretRef": f.SecretRef != ""})
 	}
 	tags := []any{}
 	for _, t := range sc.Tags {
@@ -720,7 +808,17 @@ func (d *driver) prepare(st *Step) (*checkRun, *envoy.CheckRequest) {
 	// the request id is chosen by the client (x-request-id) and is not a secret: every request of a scenario carries the same one
 	headers := map[string]string{chainHdr: f.Name, ":authority": appHost, "x-request-id": "5f1c7b1e-0000-4000-8000-verifverif00"}
 	if cookieVal != "" {
-		headers["cookie"] = "theme=dark; " + cname + "=" + cookieVal + "; other=1"
+		switch st.Decoy {
+		case "before":
+			headers["cookie"] = "theme=dark; x" + cname + "=decoyDecoyDecoy0000000000; " + cname + "=" + cookieVal + "; other=1"
+		case "only":
+			// the value is NOT in the session cookie: the request carries no session as far as the service is concerned
+			headers["cookie"] = "theme=dark; x" + cname + "=" + cookieVal + "; other=1"
+			ev["cookie"] = "none"
+			ev["decoyOf"] = cookieSym
+		default:
+			headers["cookie"] = "theme=dark; " + cname + "=" + cookieVal + "; other=1"
+		}
 	}
 	req := &envoy.CheckRequest{Attributes: &envoy.AttributeContext{Request: &envoy.AttributeContext_Request{
 		Http: &envoy.AttributeContext_HttpRequest{Id: "42", Method: "GET", Scheme: "https", Host: appHost, Path: path, Headers: headers, Protocol: "HTTP/1.1"},
@@ -861,9 +959,9 @@ func (d *driver) describe(c *checkRun, f *FilterSpec, ev map[string]any) {
 	code := int(r.GetStatus().GetCode())
 	ev["code"] = code
 	ser := protojson.MarshalOptions{}.Format(r)
-	if ok := r.GetOkResponse(); r.GetDeniedResponse() == nil && (ok != nil || code == 0) {
+	if ok := r.GetOkResponse(); code == 0 && r.GetDeniedResponse() == nil {
 		ev["kind"] = "ok"
-		ev["wellFormed"] = code == 0 && r.Status != nil
+		ev["wellFormed"] = r.Status != nil
 		up := []any{}
 		allow := map[string]bool{}
 		for _, h := range ok.GetHeaders() {
@@ -923,7 +1021,8 @@ func (d *driver) describe(c *checkRun, f *FilterSpec, ev map[string]any) {
 	}
 	den := r.GetDeniedResponse()
 	ev["kind"] = "denied"
-	ev["wellFormed"] = code != 0 && r.Status != nil
+	// a denial is well-formed with a denied body or with no body at all; an OK body under a non-OK status is not
+	ev["wellFormed"] = code != 0 && r.Status != nil && r.GetOkResponse() == nil
 	if den == nil {
 		// a bare status (e.g. "no chains matched")
 		ev["kind"] = "bare"
@@ -1068,7 +1167,7 @@ func (d *driver) describeLocation(f *FilterSpec, v string) map[string]any {
 			for _, x := range vals {
 				switch k {
 				case "client_id":
-					l = append(l, d.symClientID(x))
+					l = append(l, d.symClientIDFor(x, f.Name))
 				case "redirect_uri":
 					l = append(l, d.symRedirect(x))
 				case "state":
